@@ -20,18 +20,25 @@ def splitOnC (sep : Nat) : Str → List Str
       | [] => [[c]]          -- unreachable
       | w :: ws => (c :: w) :: ws
 
+def readDigits (r : Str) : Option Nat :=
+  if !r.isEmpty && r.all isDigit then some (digitsVal r) else none
+
 /-- reading a grouped number back: drop the commas, optional `-`, then a non-empty digit string. -/
 def readBack (s : Str) : Option Int :=
   match s.filter (· != cComma) with
-  | 45 :: r => if !r.isEmpty && r.all isDigit then some (-(Int.ofNat (digitsVal r))) else none
-  | r => if !r.isEmpty && r.all isDigit then some (Int.ofNat (digitsVal r)) else none
+  | [] => none
+  | c :: r =>
+    if c = cMinus then (readDigits r).map (fun v => -(Int.ofNat v))
+    else (readDigits (c :: r)).map Int.ofNat
+
+def dropSign (s : Str) : Str :=
+  match s with
+  | [] => []
+  | c :: r => if c = cMinus then r else c :: r
 
 /-- correct three-digit grouping: optional `-`, a first group of 1–3 digits, then groups of exactly 3. -/
 def wellGrouped (s : Str) : Bool :=
-  let body := match s with
-    | 45 :: r => r
-    | r => r
-  match splitOnC cComma body with
+  match splitOnC cComma (dropSign s) with
   | [] => false
   | g :: rest =>
     (1 ≤ g.length && g.length ≤ 3 && g.all isDigit)
